@@ -100,7 +100,21 @@ AltCodes(e) ==
                 ELSE {<<(IF exact THEN "C03.value" ELSE "C05.value"), c[2]>> :
                         c \in SameCodes(C, ZeroDropped(e.v, e.T, e.dropped), e.r)})
 
+(* ---- hostile input (C14): the call returned; no panic; resources flat-bounded ---- *)
+(* bounds no implementation linear in the input can exceed for inputs <= 64 KiB     *)
+MaxAllocKiB == 262144        \* 256 MiB
+MaxMillis == 10000
+HostileCodes(e) ==
+  (IF e.crash = 1 THEN {<<"C14.crash", e.len>>} ELSE {})
+  \cup (IF e.panic = 1 THEN {<<"C14.panic", e.len>>} ELSE {})
+  \cup (IF e.hang = 1 THEN {<<"C14.hang", e.len>>} ELSE {})
+  \cup (IF e.crash = 0 /\ e.alloc > MaxAllocKiB THEN {<<"C14.memory", e.alloc>>} ELSE {})
+  \cup (IF e.crash = 0 /\ e.hang = 0 /\ e.ms > MaxMillis THEN {<<"C14.time", e.ms>>} ELSE {})
+  \* the classification TLC attached to a mutant survives the trip through the harness
+  \cup (IF e.hasin = 1 /\ e.wf >= 0 /\ (ParseWhole(e.in).ok # (e.wf = 1)) THEN {<<"gen.classification", 0>>} ELSE {})
+
 Codes(e) == CASE e.ev = "rt" -> RtCodes(e)
+              [] e.ev = "hostile" -> HostileCodes(e)
               [] e.ev = "alt" -> AltCodes(e)
               [] e.ev = "stream" -> StreamCodes(e)
               [] OTHER -> {<<"trace.unknownEvent", 0>>}
